@@ -68,7 +68,7 @@ fn main() {
     }
 
     r.rule(
-        "Part 1: BFS over ALL sequences (depth ≤4 quick / ≤5 thorough, dedup by the complete concrete state of the real store) of \
+        "Part 1: BFS over ALL sequences (depth ≤4 quick / thorough: ≤8 on the tiers, ≤5 on the retention subjects; dedup by the complete concrete state of the real store) of \
          {put(b), put_verified(h(b),b), put_verified(h(b),b') b'≠b, get, has, pin, unpin} × 3 blobs (empty, 1 byte, 16 bytes) \
          [+ reopen, corrupt(h: flip/truncate/append/swap-in-other-blob/delete the blob file) on disk] on MemoryTier and DiskTier, and of \
          {retain(c,b), load(c), load_by_hash(h), descriptor(c), load_range(c,·), put, unpin [+reopen, corrupt]} × 3 coordinates differing in one \
@@ -89,9 +89,11 @@ fn main() {
     r.assume("causal-anchor admission transactions cannot be built through the public API (pub(crate) builders) and are not part of the history family; the causal_anchor envelope is exercised with the empty record set only");
 
     // ── Part 1 ──
-    let depth = r.pick(4usize, 5usize);
     let wit = cas::Witnesses::default();
     for s in cas::SUBJECTS {
+        // thorough: the two tiers are searched to depth 8 (their whole reachable space is ≤ 1152
+        // concrete states), the retention subjects to depth 5
+        let depth = if r.quick() { 4 } else if s.retention() { 5 } else { 8 };
         let st = cas::explore(&r, s, depth, &wit);
         println!(
             "[C20] cas {:<28} depth {} states {} transitions {} ({:.1}s)",
